@@ -70,7 +70,7 @@ def find_mismatches(pc, programs, impl_res, model_res):
         for si in range(len(prog["lines"])):
             a, b = ri[si], rm[si]
             if a[0] == "err" or b[0] == "err":
-                if a != b:
+                if a != b and not compare.results_equal(prog["lines"][si], a, b, pc.mode):
                     out.append(dict(pi=pi, si=si, impl=a, model=b, setup=si not in focus))
                     break
                 continue
@@ -134,6 +134,11 @@ def main():
     pc = props.PROPS[prop]
     rng = random.Random(f"{prop}-{tier}-{seed}")
 
+    rdir = os.path.join(ROOT, "replays")
+    if os.path.isdir(rdir):
+        for fn in os.listdir(rdir):
+            if fn.startswith(prop + "-"):
+                os.remove(os.path.join(rdir, fn))
     # 1. proof obligations ---------------------------------------------------------------
     lean = leanside.build_and_audit(prop, tier, skip=args.skip_lean)
 
